@@ -128,7 +128,7 @@ Definition track (m : mstate) (o : op) (ob : obs) (probes : list (option payload
   | ODeviceAuth auth _ sc au =>
       add (map (fun k => {| ci_kind := k; ci_client := match auth with Some c => c | None => 0 end; ci_family := base; ci_pair := None;
                             ci_challenge := ""; ci_method := ""; ci_redirect := ""; ci_scopes := []; ci_aud := []; ci_subject := ""; ci_issued := tnow; ci_decision := 0 |}) (o_minted ob))
-  | ODecide dev acc g ga sub =>
+  | ODecide dev acc g ga sub _ =>
       match cred m dev with
       | Some (i, c) =>
           if ok then
@@ -317,6 +317,9 @@ Definition judge_C03 (cfg : config) : judge_t := fun m o ob pr =>
           if cf_pkce_plain cfg then (None, [], []) else (Some "plain_challenge_accepted_although_disabled", [], [])
         else (Some "unknown_challenge_method_accepted", [], [])
       else (None, [], [])
+  | OTokenOther _ =>
+      (* a grant_type that is not exactly a registered one reaches no handler: in particular not the code exchange without its PKCE check *)
+      if String.eqb (o_err ob) "" then (Some "tokens_issued_for_a_grant_type_no_handler_is_registered_for", [], []) else (None, [], [])
   | _ => (None, [], [])
   end.
 
@@ -523,7 +526,12 @@ Definition judge_C16 (cfg : config) (contract : bool) : judge_t := fun m o ob pr
   | ODevicePoll auth dev =>
       match cred m dev with
       | Some (i, c) =>
-          let expired_ := Z.ltb (round_s (ci_issued c + cf_life_dev cfg)) (m_now m) in
+          (* the expiry is the rounded instant stamped at the device endpoint, or - when the application replaced the session at
+             the decision - requested_at + lifespan: a verdict is demanded only where both readings agree *)
+          let e1 := Z.ltb (round_s (ci_issued c + cf_life_dev cfg)) (m_now m) in
+          let e2 := Z.ltb (ci_issued c + cf_life_dev cfg) (m_now m) in
+          let expired_ := e1 && e2 in
+          let alive_ := negb e1 && negb e2 in
           let owner_ := match auth with Some a => Nat.eqb a (ci_client c) | None => false end in
           let granted_ := match auth with Some a => client_has_grant m a "urn:ietf:params:oauth:grant-type:device_code" | None => false end in
           if String.eqb (o_err ob) "" then
@@ -538,13 +546,13 @@ Definition judge_C16 (cfg : config) (contract : bool) : judge_t := fun m o ob pr
             if String.eqb (o_err ob) "invalid_grant" then (None, [ci_family c], []) else (Some "replayed_device_code_not_answered_invalid_grant", [], [])
           else if granted_ && negb (p_tampered dev) && negb (memn i (m_redeemed m)) then
             (* the listed verdict is required when only its condition applies *)
-            if owner_ && negb expired_ && Nat.eqb (ci_decision c) 0 && negb (String.eqb (o_err ob) "authorization_pending")
+            if owner_ && alive_ && Nat.eqb (ci_decision c) 0 && negb (String.eqb (o_err ob) "authorization_pending")
             then (Some "undecided_poll_not_answered_authorization_pending", [], [])
-            else if owner_ && negb expired_ && Nat.eqb (ci_decision c) 2 && negb (String.eqb (o_err ob) "access_denied")
+            else if owner_ && alive_ && Nat.eqb (ci_decision c) 2 && negb (String.eqb (o_err ob) "access_denied")
             then (Some "denied_poll_not_answered_access_denied", [], [])
             else if owner_ && expired_ && Nat.eqb (ci_decision c) 1 && negb (String.eqb (o_err ob) "expired_token")
             then (Some "expired_poll_not_answered_expired_token", [], [])
-            else if negb owner_ && negb expired_ && Nat.eqb (ci_decision c) 1 && negb (String.eqb (o_err ob) "invalid_grant")
+            else if negb owner_ && alive_ && Nat.eqb (ci_decision c) 1 && negb (String.eqb (o_err ob) "invalid_grant")
             then (Some "foreign_poll_not_answered_invalid_grant", [], [])
             else (None, [], [])
           else (None, [], [])
@@ -591,13 +599,25 @@ Definition active_answer_ok (cfg : config) (m : mstate) (tok : pres) (scopes : l
       if p_tampered tok then Some "tampered_token_reported_active"
       else if negb (probe_active (m_prev m) i) then Some "token_that_probes_inactive_reported_active"
       else if negb (match_scopes cfg (ci_scopes c) scopes) then Some "token_reported_active_although_a_required_scope_was_not_granted"
+      else if ckind_eqb (ci_kind c) KRefresh && negb (cf_introspect_rt cfg) then Some "refresh_token_reported_active_although_refresh_token_introspection_is_disabled"
       else None
   end.
+(* the kind an active answer reports is the credential's real kind *)
+Definition reported_use_ok (m : mstate) (tok : pres) (ob : obs) : option string :=
+  match cred m tok with
+  | Some (i, c) => if list_eqb (o_scopes ob) [use_name (ci_kind c)] then None else Some "active_token_reported_with_the_wrong_token_use"
+  | None => None
+  end.
+
+(* with refresh-token introspection disabled no refresh token is ever reported active, under any hint *)
+Definition rt_silent (cfg : config) (pr : list (option payload)) : bool :=
+  cf_introspect_rt cfg || forallb (fun p => match p with Some pl => negb (ckind_eqb (pl_use pl) KRefresh) | None => true end) pr.
 
 Definition judge_C09 (cfg : config) : judge_t := fun m o ob pr =>
+  if negb (rt_silent cfg pr) then (Some "refresh_token_reported_active_although_refresh_token_introspection_is_disabled", [], []) else
   match o with
   | OIntrospect tok _ scopes =>
-      if String.eqb (o_err ob) "" then (active_answer_ok cfg m tok scopes, [], []) else (None, [], [])
+      if String.eqb (o_err ob) "" then (first_some (active_answer_ok cfg m tok scopes) (reported_use_ok m tok ob), [], []) else (None, [], [])
   | OIntrospectEP cal tok _ scopes =>
       let answered := negb (String.eqb (o_err ob) "request_unauthorized") in
       let caller_fine :=
@@ -612,7 +632,7 @@ Definition judge_C09 (cfg : config) : judge_t := fun m o ob pr =>
             end
         end in
       if answered && negb caller_fine then (Some "introspection_endpoint_answered_a_caller_without_valid_credentials", [], [])
-      else if String.eqb (o_err ob) "" then (active_answer_ok cfg m tok scopes, [], [])
+      else if String.eqb (o_err ob) "" then (first_some (active_answer_ok cfg m tok scopes) (reported_use_ok m tok ob), [], [])
       else (None, [], [])
   | _ => (None, [], [])
   end.
@@ -664,4 +684,4 @@ Definition check_C07 := check_with monitor_C07.
 Definition check_C08 := check_with (monitor judge_C08).
 Definition check_C09 := check_with (fun c => first_some (monitor (judge_C09 (case_cfg c)) c) (payload_monitor c)).
 Definition check_C16 := check_with (fun c => first_some (monitor (judge_C16 (case_cfg c) (is_contract_case c)) c) (payload_monitor c)).
-Definition check_C17 := check_with (fun c => monitor (judge_C17 (case_cfg c)) c).
+Definition check_C17 := check_with (fun c => first_some (monitor (judge_C17 (case_cfg c)) c) (monitor (judge_C03 (case_cfg c)) c)).
